@@ -20,8 +20,10 @@ PROPERTY = "C16"
 LEVEL = "exploration"
 
 k, m = sp.symbols("k m", positive=True)
+xr, yr = sp.symbols("x y", real=True)  # no sign known: sqrt(x*y) is not sqrt(x)*sqrt(y)
 COEFFS = {"1": sp.S.One, "-1": -sp.S.One, "2": sp.Integer(2), "k": k, "-k": -k, "k+1": k + 1,
-    "1/k": 1 / k, "k*m": k * m}
+    "1/k": 1 / k, "k*m": k * m, "sqrt(x*y)": sp.sqrt(xr * yr), "log(x*y)": sp.log(xr * yr),
+    "(x*y)**(1/3)": (xr * yr)**sp.Rational(1, 3)}
 VECS = ["a", "b", "c", "cross(a,b)", "ucross(a,b)", "2a", "cross(a,c)"]
 
 
@@ -50,7 +52,7 @@ def combos(thorough: bool) -> list[tuple]:
         small = [(c, v) for c in ("1", "-1", "-k", "k+1", "1/k") for v in ("a", "b", "c",
             "cross(a,b)", "2a")]
     else:
-        terms = [(c, v) for c in ("1", "-1", "k", "k+1", "1/k", "k*m") for v in VECS[:6]]
+        terms = [(c, v) for c in ("1", "-1", "k", "k+1", "1/k", "k*m", "sqrt(x*y)") for v in VECS[:6]]
         small = [(c, v) for c in ("1", "-k", "k+1") for v in ("a", "b", "cross(a,b)")]
     out: list[tuple] = [(t, ) for t in [(c, v) for c in COEFFS for v in VECS]]
     out += list(itertools.product(terms, repeat=2))
